@@ -42,7 +42,9 @@ def run(chk, replay=None):
     if len(cases) < 2000:
         raise MachineryError('Gen produced %d histories' % len(cases))
     if quick:
-        cases = cases[chk.seed % 4::4]
+        import random
+        pick = random.Random(chk.seed * 7919 + 7)
+        cases = [c for c in cases if pick.random() < 0.25]
     base = os.path.join(chk.tmp, 'repo')
 
     def token_of(path):
